@@ -68,6 +68,15 @@ class Elf(BinFormat):
         return self.__file
 
     def __init__(self, f):
+        try:
+            self.__parse(f)
+        except (ElfError, StructureError):
+            raise
+        except Exception as e:
+            # malformed content is reported as an ElfError only:
+            raise ElfError("malformed ELF file (%s)" % repr(e))
+
+    def __parse(self, f):
         self.__file = f
         self.Ehdr = Ehdr(f)
         x64 = self.Ehdr.e_ident.EI_CLASS == ELFCLASS64
